@@ -94,7 +94,7 @@ def real_law(item):
     from scenic.core.distributions import RejectionException
 
     try:
-        scenario = scenic.scenarioFromString(text, mode2D=False)
+        scenario = scenic.scenarioFromString(text, mode2D=bool(info.get("mode2D")))
     except Exception as e:  # generator sanity rule: the spec says this program is well formed
         return {"error": f"compile: {type(e).__name__}: {e}"}
     M = prog["maxIter"]
@@ -154,6 +154,8 @@ def main(tier):
         # the quick tier takes every third core program (rotating with the seed) and all random ones
         core = [c for i, c in enumerate(core) if i % 3 == seed() % 3]
     items = core + rand
+    for i, (_t, _p, info) in enumerate(items):
+        info["mode2D"] = i % 4 == 3  # every fourth program is compiled in 2D compatibility mode
     ck.cov["dropped_by_generator"] = dropped
     ck.cov["programs"] = len(items)
 
